@@ -149,6 +149,10 @@ def discharge(hyp, goal, timeout_s=10.0, model_vars=None, use_cvc5=True, seed=0)
     else:
         res["status"] = "unknown"
         res["reason"] = s.reason_unknown()
+        if os.environ.get("VERIF_DUMP_UNKNOWN"):
+            os.makedirs(os.environ["VERIF_DUMP_UNKNOWN"], exist_ok=True)
+            with open(os.path.join(os.environ["VERIF_DUMP_UNKNOWN"], f"q{int(time.time()*1000)}.smt2"), "w") as fh:
+                fh.write(s.to_smt2())
         cm = concretize_search(hyp, goal, seed=seed)
         if cm is None and use_cvc5:
             try:
